@@ -64,6 +64,7 @@ def _history(draw, knob):
     if steps[-1]["op"] != "sync":
         steps.append({"op": "sync", "truth": None})
     base["steps"] = steps
+    base["path_style"] = draw(st.sampled_from(("abs", "abs", "relative", "symlink")))
     return base
 
 
@@ -74,7 +75,9 @@ def strategy(mode, knob=None):
 def valid(case):
     try:
         base = {k: case[k] for k in ("ir", "stale_ir", "truth", "states", "method")}
-        if not c09.valid(base) or set(case) != {"ir", "stale_ir", "truth", "states", "method", "steps"}:
+        if not c09.valid(base) or set(case) != {"ir", "stale_ir", "truth", "states", "method", "steps", "path_style"}:
+            return False
+        if case["path_style"] not in ("abs", "relative", "symlink"):
             return False
         if not case["steps"] or case["steps"][0]["op"] != "sync":
             return False
@@ -97,7 +100,7 @@ def valid(case):
 
 def run_case(case):
     base = {k: case[k] for k in ("ir", "stale_ir", "truth", "states", "method")}
-    tags = c09.case_tags(base)
+    tags = c09.case_tags(base) | {"paths=" + case["path_style"]}
     steps = case["steps"]
     ops = [s_["op"] for s_ in steps]
     has_resync = any(a == "sync" and b == "sync" and steps[i + 1].get("truth") in (None,) for i, (a, b) in enumerate(zip(ops, ops[1:])))
@@ -131,6 +134,10 @@ def run_case(case):
             if s_["op"] == "edit":
                 try:
                     project.write_state(paths[truth], truth, "agreeing", lambda: domain.to_ir(s_["ir"]), None, method)
+                    with open(paths[truth]) as f:
+                        hw = project.handwritten(f.read(), truth, method)
+                    with open(paths[truth], "w") as f:
+                        f.write(hw)
                 except Exception:
                     pass
                 dirty = True
@@ -161,7 +168,7 @@ def run_case(case):
             before = project.snapshot(d)
             evals += 1
             try:
-                res, printed = project.run_sync(paths, truth, method, given)
+                res, printed = project.run_sync(paths, truth, method, given, case["path_style"])
             except BaseException as e:
                 if isinstance(e, KeyboardInterrupt):
                     raise
